@@ -606,7 +606,7 @@ def run_case(case):
                     else:
                         mon.ok("target_w_stb_exactly_once", len(mine) == 0, f"read-only {path} saw a write strobe")
                 # ---- partial select masks inside one word (Wishbone root): strobe iff first / last address selected
-                if case["root"] == "wb" and ratio > 1:
+                if case["root"] == "wb":      # (with a single lane: a cycle with SEL low addresses nothing)
                     word = rng.randint(s >> gbits, (e - 1) >> gbits)
                     lanes = [l for l in range(ratio) if s <= (word << gbits) + l < e]
                     sub = [l for l in lanes if rng.random() < 0.5]
